@@ -453,3 +453,8 @@ BOUNDS = {
 }
 OUTSIDE = ["more than one cancellation", "cancellation while the owner's own aclose() is running", "lengths above the bound"]
 NONTRIVIAL_RULE = "the cancellation was actually delivered at a suspension point on the path"
+
+MANIFEST = {
+    "text": 'Fault enumeration over cancellation points: every source pull, async callable, lock and context manager suspends once; a BaseException is thrown in at symbolic suspension k; that object must propagate; after the owner closes the iterator every source is released, locks are free, registered exits ran with that exception, caches hold no partial entry and still work. Nothing is claimed outside the bounds listed in the evidence file.',
+    "note": 'Trusted: CrossHair 0.0.110 (with short-circuiting off and a refined callable() model), z3 5.1.0, the harness oracles. One cancellation per run.',
+}
